@@ -580,13 +580,20 @@ def sub_components(sp):
 def gen_subs_op(r, counts):
     while True:
         sp = multibody_space(r) if r.chance(1, 3) else gen_space(r)
-        if sub_components(sp) is None or not sub_components(sp) or wraps_compound(sp):
+        wrapped_top = False
+        if False:                            # wrapped tops crash (finding F168): directed probes only, see wrapped_top_probes
+            sp = ("wrap", sp)
+        inner = sp
+        while inner[0] == "wrap":
+            inner = inner[1]
+            wrapped_top = True
+        if sub_components(inner) is None or not sub_components(inner) or wrapped_top or wraps_compound(sp):
             continue
         break
     path = []
-    node = sp
+    node = inner
     first = 0
-    depth = r.choice([1, 1, 1, 2, 2, 3, 0])
+    depth = r.choice([1, 1, 1, 2, 2, 3, 0]) if not wrapped_top else r.choice([1, 1, 2, 3])
     for _ in range(depth):
         comps = sub_components(node)
         if not comps:
@@ -608,18 +615,20 @@ def gen_subs_op(r, counts):
     weight = 1.0
     if len(path) == 1:
         ws = 0.0
-        for w, _ in sub_components(sp):
+        for w, _ in sub_components(inner):
             ws += w
-        weight = 1.0 if ws < EPS else sub_components(sp)[path[0]][0] / ws
+        weight = 1.0 if ws < EPS else sub_components(inner)[path[0]][0] / ws
     line = " ".join(["subs", kind, str(len(path))] + [str(k) for k in path] + [fb(d)] + sp_tokens(sp) + st + near + scripted)
     counts("subs:" + kind)
     counts("subs-path-length:%d" % len(path))
     counts("subs-subspace:" + node[0])
+    if wrapped_top:
+        counts("subs:top-level-wrapper")
     # token offset of the subspace inside a full state
     def ntok(space):
         return sum(4 if lf[0] == "q" else 1 for lf in leaves(space))
     off = 0
-    node2 = sp
+    node2 = inner
     for k in path:
         comps = sub_components(node2)
         off += sum(ntok(c) for _, c in comps[:k])
@@ -657,6 +666,37 @@ def subs_oracle(m, line):
         if canon(h["d"]) != canon(fb(m["d"] * m["weight"])):
             return "the inner sampler was given distance %r, expected distance*importance = %r" % (bf(h["d"]), m["d"] * m["weight"])
     return None
+
+
+def wrapped_top_probes(ck, hbin):
+    """SubspaceStateSampler obtained from a WrapperStateSpace around a compound, called with the WRAPPER's states (each probe in
+    its own process: finding F168 is a crash)"""
+    cmp_ = ("cmp", [(1.0, ("se2", [0.0, 0.0], [1.0, 1.0])), (3.0, ("so2",))])
+    st = [fb(0.5), fb(0.5), fb(0.1), fb(0.2)]
+    ok = True
+    for sp, tag in ((("wrap", cmp_), "single"), (("wrap", ("wrap", cmp_)), "double")):
+        for kind in "ung":
+            for path, sub in (([0], [fb(0.25), fb(0.75), fb(1.0)]), ([0, 0], [fb(0.25), fb(0.75)]), ([1], [fb(-1.0)])):
+                lines = ["spacebounds seed=1", " ".join(["subs", kind, str(len(path))] + [str(k) for k in path] + [fb(0.4)]
+                                                         + sp_tokens(sp) + st + st + sub)]
+                impl, rc, err, model = ck.run_pair(hbin, DRIVER, lines)
+                ck.case(("wrapprobe", lines[1]), True)
+                ck.count("wrapped-top-probe:" + ("crash" if rc != 0 else "ran"))
+                if rc != 0:
+                    rec = {"engine": "spacebounds", "op": "subs", "clause": "subspace-sampler-of-wrapper-crash", "sampler": kind,
+                           "wrapping": tag,
+                           "what": "a SubspaceStateSampler obtained from a WrapperStateSpace crashed on the wrapper's own states (rc=%s): %s"
+                                   % (rc, " ".join(l.strip() for l in (err or "").splitlines() if "SUMMARY" in l)[:200])}
+                    if ck.report(rec, script=lines, observed=(err or "")[-1500:], engine="spacebounds"):
+                        ck.log("property failure: " + rec["what"][:200])
+                        ok = False
+                elif canon((impl or [""])[0]) != canon(model[0] if model else ""):
+                    ck.disagreements += 1
+                    ck.report({"engine": "spacebounds", "op": "subs", "what": "model/implementation disagreement"}, script=lines,
+                              expected=model, observed=impl, found_input=False, engine="spacebounds",
+                              obligation="correspondence spacebounds: SubspaceStateSampler of a wrapped compound vs the model (transparent wrapper)")
+                    ok = False
+    return ok
 
 
 def run_subs(ck, hbin, lines, meta):
@@ -828,6 +868,274 @@ def run_uint(ck, hbin, lines, meta):
             nrep += 1
         if nrep >= 3:
             break
+    return ok
+
+
+# ---------------------------------------------------------------------------------- PrecomputedStateSampler, deterministic samplers,
+# halfNormal, weight histories
+def gen_pre_script(r, nconf, ndraws, counts, seed):
+    lines = ["spacebounds seed=%d" % seed]
+    meta = []
+    while len(meta) < nconf:
+        sp = gen_space(r) if r.chance(1, 2) else gen_leaf_space(r)
+        if not legal(sp) or not leaves(sp):
+            continue
+        if any(lf[0] == "t" and not lf[1] for lf in leaves(sp)):
+            continue
+        if any(lf[0] == "r" and abs(lf[2] - lf[1]) > 1e15 for lf in leaves(sp)):
+            continue            # (to - from) * t of the interpolation is C07's business for huge boxes
+        k = r.range(1, 5)
+        states = []
+        for _ in range(k):
+            states += state_tokens(r, sp, False)
+        near = state_tokens(r, sp, False)
+        kind = r.choice(["u", "n", "g"])
+        ext = extent(sp)
+        d = 0.0 if kind == "u" else ext * r.choice([0.0, 0.05, 0.5, 2.0, 100.0])
+        lines.append(" ".join(["pre", kind, str(ndraws), fb(d)] + sp_tokens(sp) + [str(k)] + states + near))
+        meta.append({"space": sp, "kind": kind, "dist": d})
+        counts("pre:" + kind)
+    return lines, meta
+
+
+def run_pre(ck, hbin, lines, meta, pre=None):
+    impl, rc, err = pre if pre is not None else ck.run_bin(hbin, lines)
+    impl = impl or []
+    ck.traces_validated += 1
+    ok = True
+    nrep = 0
+    if rc != 0:
+        ck.report({"engine": "spacebounds", "clause": "harness-exit", "what": "harness exited with %s on PrecomputedStateSampler runs" % rc},
+                  script=lines, observed=(err or "")[-2000:], engine="spacebounds")
+        return False
+    for i, m in enumerate(meta):
+        line = impl[i] if i < len(impl) else "<missing>"
+        if line.startswith("skip"):
+            ck.count("pre:skipped")
+            continue
+        h = kv(line)
+        ck.case(("pre", lines[0], lines[i + 1]), True)
+        ck.count("precomputed-sampler-outputs-checked", int(h.get("n", 0)))
+        if h.get("bad") != "0":
+            kinds = sorted(set(lf[0] for lf in leaves(m["space"])))
+            # culprit leaves of the first bad output: F166 is about extrapolation in R^n / time coordinates
+            culprit = "?"
+            try:
+                toks = line.split("first=", 1)[1].split()
+                badk = set()
+                for lf, vals in split_leaf_tokens(m["space"], toks):
+                    if lf[0] == "r" and (bf(vals[0]) - EPS > lf[2] or bf(vals[0]) + EPS < lf[1]):
+                        badk.add("r")
+                    elif lf[0] == "t" and lf[1] and not (lf[2] - EPS <= bf(vals[0]) <= lf[3] + EPS):
+                        badk.add("t")
+                    elif lf[0] == "a" and not (-PI <= bf(vals[0]) < PI):
+                        badk.add("a")
+                    elif lf[0] == "q" and abs(math.sqrt(sum(bf(x) ** 2 for x in vals)) - 1.0) >= 1e-9:
+                        badk.add("q")
+                    elif lf[0] == "d" and not (lf[1] <= int(vals[0]) <= lf[2]):
+                        badk.add("d")
+                culprit = "".join(sorted(badk)) or "?"
+            except Exception:
+                pass
+            rec = {"engine": "spacebounds", "op": "pre", "clause": "precomputed-sampler-inbounds", "sampler": m["kind"],
+                   "culprit": culprit, "leaf_kinds": "".join(kinds),
+                   "what": "PrecomputedStateSampler output out of bounds: " + line[:300]}
+            if ck.report(rec, script=[lines[0], lines[i + 1]], observed=[line], engine="spacebounds"):
+                ck.log("property failure: PrecomputedStateSampler %s (culprit %s; %s)" % (m["kind"], culprit, line[:100]))
+                ok = False
+                nrep += 1
+                if nrep >= 3:
+                    break
+    return ok
+
+
+def gen_det_op(r, counts):
+    which = r.choice(["so2", "rv", "se2"])
+    seq = r.choice(["halton", "halton", "list", "file"])
+    if which == "so2":
+        sp, dim = ("so2",), 1
+    elif which == "rv":
+        n = r.range(1, 5)
+        rs = [gen_range(r, False) for _ in range(n)]
+        sp, dim = ("rv", [x[0] for x in rs], [x[1] for x in rs]), n
+    else:
+        rs = [(lo, hi if lo < hi else lo + 1.0) for lo, hi, _ in (gen_range(r, False) for _ in range(2))]
+        sp, dim = ("se2", [x[0] for x in rs], [x[1] for x in rs]), 3
+    n = r.range(1, 40)
+    vals = []
+    if seq != "halton":
+        rows = r.range(1, 6)
+        vals = [r.choice([0.0, 0.5, nextafter(1.0, 0.0), r.unit(), r.unit(), 2.0 ** -60]) for _ in range(rows * dim)]
+    counts("det:" + which + ":" + seq)
+    return " ".join(["det", which, seq, str(n), str(len(vals))] + [fb(v) for v in vals] + sp_tokens(sp)), {"space": sp, "which": which, "seq": seq}
+
+
+def run_det(ck, hbin, lines, meta):
+    impl, rc, err, model = ck.run_pair(hbin, DRIVER, lines)
+    impl = impl or []
+    ck.traces_validated += 1
+    ok = True
+    nrep = 0
+    if rc != 0:
+        ck.report({"engine": "spacebounds", "clause": "harness-exit", "what": "harness exited with %s on det runs" % rc},
+                  script=lines, observed=(err or "")[-2000:], engine="spacebounds")
+        return False
+    for i, m in enumerate(meta):
+        line = impl[i] if i < len(impl) else "<missing>"
+        mo = model[i] if i < len(model) else "<missing>"
+        ck.case(("det", lines[i + 1]), True)
+        # oracle: sequence values are in [0, 1) here, so every state must be in bounds
+        bad = None
+        if line == "bad-op":
+            bad = "bad-op on a well-formed det line"
+        else:
+            for stt in line.split(" ; "):
+                try:
+                    for lf, vals in split_leaf_tokens(m["space"], stt.split()):
+                        v = bf(vals[0])
+                        if lf[0] == "a" and not (-PI <= v < PI):
+                            bad = "deterministic sampler: angle %r outside [-pi, pi)" % v
+                        if lf[0] == "r" and not (min(lf[1], lf[2]) - EPS <= v <= max(lf[1], lf[2]) + EPS):
+                            bad = "deterministic sampler: coordinate %r outside [%r, %r]" % (v, lf[1], lf[2])
+                except Exception as ex:
+                    bad = "unparsable det output (%r)" % (ex,)
+        if bad:
+            rec = {"engine": "spacebounds", "op": "det", "clause": "deterministic-sampler-inbounds", "sampler": m["which"],
+                   "sequence": m["seq"], "what": bad}
+            if ck.report(rec, script=[lines[0], lines[i + 1]], expected=[mo], observed=[line], engine="spacebounds"):
+                ck.log("property failure: " + bad)
+                ok = False
+                nrep += 1
+        elif canon(line) != canon(mo):
+            ck.disagreements += 1
+            ck.report({"engine": "spacebounds", "op": "det", "what": "model/implementation disagreement"},
+                      script=[lines[0], lines[i + 1]], expected=[mo], observed=[line], found_input=False, engine="spacebounds",
+                      obligation="correspondence spacebounds: %s DeterministicStateSampler over %s vs OmplModel.Model.SpaceBounds "
+                                 "(halton1D / detSO2 / detRv)" % (m["which"], m["seq"]))
+            ck.log("correspondence disagreement on a det line (%s %s)" % (m["which"], m["seq"]))
+            ok = False
+            nrep += 1
+        if nrep >= 3:
+            break
+    return ok
+
+
+def gauss_words(r, g_zero=False):
+    """four mt19937 outputs from which std::normal_distribution's polar method accepts at once (0 < x^2+y^2 <= 1);
+    g_zero: the second canonical value is exactly 1/2, so y = 0 and the returned draw y*mult is exactly 0"""
+    while True:
+        x1 = r.below(2 ** 32)
+        y1 = 0x80000000 if g_zero else r.below(2 ** 32)
+        x0 = r.below(2 ** 32)
+        y0 = 0 if g_zero else r.below(2 ** 32)
+        x = 2.0 * ((x0 + x1 * 2.0 ** 32) / 2.0 ** 64) - 1.0
+        y = 2.0 * ((y0 + y1 * 2.0 ** 32) / 2.0 ** 64) - 1.0
+        r2 = x * x + y * y
+        if 1e-6 < r2 < 0.999:
+            return x0, x1, y0, y1
+
+
+def gen_hn_op(r, counts, lo=None, hi=None, g_zero=None, kind=None):
+    if lo is None:
+        lo, hi = uint_ranges(r)
+    kind = kind or r.choice(["int", "int", "real"])
+    gz = r.chance(1, 4) if g_zero is None else g_zero
+    focus = r.choice([3.0, 3.0, 1.0, 10.0, 0.5, 1e6])
+    w = gauss_words(r, gz)
+    counts("hn:" + kind + (":g=0" if gz else ""))
+    return "hn %s %d %d %s %s" % (kind, lo, hi, fb(focus), " ".join(str(mt_untemper(x)) for x in w)), \
+        {"lo": lo, "hi": hi, "kind": kind, "gz": gz}
+
+
+def run_hn(ck, hbin, lines, meta):
+    impl, rc, err, model = ck.run_pair(hbin, DRIVER, lines)
+    impl = impl or []
+    ck.traces_validated += 1
+    ok = True
+    nrep = 0
+    if rc != 0:
+        ck.report({"engine": "spacebounds", "clause": "harness-exit", "what": "harness exited with %s on hn runs" % rc},
+                  script=lines, observed=(err or "")[-2000:], engine="spacebounds")
+        return False
+    for i, m in enumerate(meta):
+        line = impl[i] if i < len(impl) else "<missing>"
+        mo = model[i] if i < len(model) else "<missing>"
+        ck.case(("hn", lines[i + 1]), True)
+        h = kv(line)
+        try:
+            rv = int(h["r"]) if m["kind"] == "int" else bf(h["r"])
+        except Exception:
+            rv = None
+        if rv is None or not (m["lo"] <= rv <= m["hi"]):
+            cls = "upper-bound-INT_MAX" if (m["hi"] == INT_MAX and m["kind"] == "int") else "generic"
+            rec = {"engine": "spacebounds", "op": "hn", "clause": "halfNormal-in-range", "kind": m["kind"], "input_class": cls,
+                   "returned": str(h.get("r")),
+                   "what": "RNG::halfNormal%s(%d, %d) returned %s on the Gaussian draw %r" % (
+                       "Int" if m["kind"] == "int" else "Real", m["lo"], m["hi"], h.get("r"), bf(h["g"]) if "g" in h else None)}
+            if ck.report(rec, script=[lines[0], lines[i + 1]], expected=[mo], observed=[line], engine="spacebounds"):
+                ck.log("property failure: " + rec["what"])
+                ok = False
+                nrep += 1
+        elif canon(line) != canon(mo):
+            ck.disagreements += 1
+            ck.report({"engine": "spacebounds", "op": "hn", "what": "model/implementation disagreement"},
+                      script=[lines[0], lines[i + 1]], expected=[mo], observed=[line], found_input=False, engine="spacebounds",
+                      obligation="correspondence spacebounds: RNG::halfNormalReal/Int + std::normal_distribution vs the model "
+                                 "(halfNormalReal/Int, OmplModel.Rng.normal)")
+            ck.log("correspondence disagreement on an hn line (%s / %s)" % (line, mo))
+            ok = False
+            nrep += 1
+        if nrep >= 3:
+            break
+    return ok
+
+
+def reweight(r, sp):
+    if sp[0] == "cmp":
+        return ("cmp", [(gen_weight(r), reweight(r, c)) for _, c in sp[1]])
+    if sp[0] == "wrap":
+        return ("wrap", reweight(r, sp[1]))
+    return sp
+
+
+def gen_rewt_script(r, nconf, ndraws, counts, seed):
+    lines = ["spacebounds seed=%d" % seed]
+    meta = []
+    while len(meta) < nconf:
+        sp = gen_space(r)
+        if not legal(sp) or sp[0] not in ("cmp", "wrap") or not leaves(sp):
+            continue
+        sp2 = reweight(r, sp)
+        kind = r.choice(["n", "g"])
+        d = extent(sp) * r.choice([0.0, 0.1, 1.0, 100.0]) if r.chance(1, 2) else moderate_radii(r, sp)[0]
+        if any(lf[0] == "d" for lf in leaves(sp)):
+            d = min(d, 1e6)
+        lines.append(" ".join(["rewt", kind, str(ndraws), fb(d)] + sp_tokens(sp) + sp_tokens(sp2) + state_tokens(r, sp, False)))
+        meta.append({"space": sp, "kind": kind})
+        counts("rewt:" + kind)
+    return lines, meta
+
+
+def run_rewt(ck, hbin, lines, meta, pre=None):
+    impl, rc, err = pre if pre is not None else ck.run_bin(hbin, lines)
+    impl = impl or []
+    ck.traces_validated += 1
+    ok = True
+    if rc != 0:
+        ck.report({"engine": "spacebounds", "clause": "harness-exit", "what": "harness exited with %s on rewt runs" % rc},
+                  script=lines, observed=(err or "")[-2000:], engine="spacebounds")
+        return False
+    for i, m in enumerate(meta):
+        line = impl[i] if i < len(impl) else "<missing>"
+        h = kv(line)
+        ck.case(("rewt", lines[0], lines[i + 1]), True)
+        ck.count("reweighted-sampler-outputs-checked", 2 * int(h.get("n", 0)))
+        if h.get("badOld") != "0" or h.get("badNew") != "0":
+            rec = {"engine": "spacebounds", "op": "rewt", "clause": "sampler-inbounds-after-setSubspaceWeight", "sampler": m["kind"],
+                   "what": "a compound sampler produced an out-of-bounds state after setSubspaceWeight(): " + line[:300]}
+            if ck.report(rec, script=[lines[0], lines[i + 1]], observed=[line], engine="spacebounds"):
+                ck.log("property failure: " + rec["what"][:200])
+                ok = False
     return ok
 
 
@@ -1662,6 +1970,7 @@ def run(ck):
 
     ck.log("stage: (b''') SubspaceStateSampler lock-step")
     # (b''') SubspaceStateSampler lock-step (scripted inner sampler) and raw-draw lock-step of the single-object samplers
+    wrapped_top_probes(ck, hbin)
     for i in range(3 if quick else 12):
         r = ck.rng.fork("subs%d" % i)
         lines = ["spacebounds seed=1"]
@@ -1672,6 +1981,23 @@ def run(ck):
             meta.append(m)
         run_subs(ck, hbin, lines, meta)
         ck.count("scripts:subs")
+    # shipped samplers no space allocates: PrecomputedStateSampler, the deterministic samplers; RNG::halfNormal*; weight histories
+    lines, meta = gen_pre_script(ck.rng.fork("pre"), 60 if quick else 400, 2000 if quick else 20000, counts, ck.seed * 1000 + 970)
+    run_pre(ck, hbin, lines, meta)
+    ck.count("scripts:pre")
+    r = ck.rng.fork("det")
+    ops = [gen_det_op(r, counts) for _ in range(300 if quick else 3000)]
+    run_det(ck, hbin, ["spacebounds seed=1"] + [o[0] for o in ops], [o[1] for o in ops])
+    ck.count("scripts:det")
+    r = ck.rng.fork("hn")
+    ops = [gen_hn_op(r, counts, lo, hi, gz, kind) for lo, hi in [(INT_MAX, INT_MAX), (INT_MAX - 3, INT_MAX), (2 ** 30, 2 ** 30),
+           (INT_MIN, INT_MIN), (0, 0), (0, 9), (INT_MIN, INT_MAX - 1)] for gz in (True, False) for kind in ("int", "real")]
+    ops += [gen_hn_op(r, counts) for _ in range(600 if quick else 6000)]
+    run_hn(ck, hbin, ["spacebounds seed=1"] + [o[0] for o in ops], [o[1] for o in ops])
+    ck.count("scripts:hn")
+    lines, meta = gen_rewt_script(ck.rng.fork("rewt"), 60 if quick else 400, 1000 if quick else 10000, counts, ck.seed * 1000 + 980)
+    run_rewt(ck, hbin, lines, meta)
+    ck.count("scripts:rewt")
     ops = directed_uint_ops(counts)
     r = ck.rng.fork("uint")
     for _ in range(1500 if quick else 20000):
@@ -1803,7 +2129,11 @@ MANIFEST = {
             "the RNG's range and every radius; a successful valid-state sampler returns a state the checker answered `true` for. "
             "Tied to the code by bit-exact lock-step runs of enforceBounds / satisfiesBounds and of the valid-state samplers "
             "(scripted inner sampler and validity checker) against the real libompl, plus oracles on 10^4..10^5 real sampler "
-            "outputs per configuration.",
+            "outputs per configuration. Also inside the model and lock-stepped: SubspaceStateSampler (scripted inner sampler), the "
+            "CompoundStateSampler's per-component decisions, the Torus / Klein rejection loops and every leaf sampler on its own raw "
+            "draws, RNG::uniformInt / halfNormalInt on adversarial mt19937 states (C20's RNG model for the draw), the deterministic "
+            "(Halton / precomputed-sequence) samplers; oracle-driven: PrecomputedStateSampler, bounds and weights changed after "
+            "sampler allocation, aliasing (state == near).",
     "note": "Trusted: Lean kernel, the three standard axioms, the hand-written model outside the inputs the correspondence explored, "
             "the harness. Real sampler outputs are sampled, not proved (OMPL's RNG cannot be scripted); the theorems are over real "
             "numbers, IEEE rounding is executed but not verified; states are finite, bounds satisfy lo <= hi, centres are in bounds.",
